@@ -29,7 +29,7 @@ _deps = VERIF / ".deps"
 if _deps.is_dir():
     sys.path.append(str(_deps))
 
-from pbt.common import HarnessError, Stats, Sub, Violation, canon  # noqa: E402
+from pbt.common import HarnessError, Stats, Sub, Violation, canon, guarded  # noqa: E402
 
 
 def _import_curies() -> None:
@@ -38,41 +38,6 @@ def _import_curies() -> None:
     where = Path(curies.__file__).resolve()
     if SRC not in where.parents:
         raise HarnessError(f"curies imported from {where}, expected under {SRC}")
-
-
-def _passes_through_sut(tb) -> bool:
-    """Does the traceback contain a frame of the code under test?"""
-    src = str(SRC)
-    while tb is not None:
-        if tb.tb_frame.f_code.co_filename.startswith(src):
-            return True
-        tb = tb.tb_next
-    return False
-
-
-def guarded(check, case, stats):
-    """Call a check; turn unexpected exceptions that escaped the code under test into violations."""
-    import hypothesis.errors
-
-    try:
-        check(case, stats)
-    except Violation as v:
-        if v.case is None:
-            v.case = case
-        raise
-    except (hypothesis.errors.HypothesisException, KeyboardInterrupt, MemoryError, HarnessError):
-        raise
-    except BaseException as e:  # noqa: BLE001
-        if isinstance(e, (SystemExit, GeneratorExit)):
-            raise
-        if e.__class__.__name__ in {"UnsatisfiedAssumption", "StopTest", "Frozen"}:
-            raise
-        if _passes_through_sut(e.__traceback__):
-            tb = "".join(traceback.format_exception(type(e), e, e.__traceback__)[-6:])
-            raise Violation(f"unexpected {type(e).__name__} escaped the code under test: {e}\n{tb}", case) from e
-        raise HarnessError(
-            "exception inside the harness: " + "".join(traceback.format_exception(type(e), e, e.__traceback__))
-        ) from e
 
 
 def _settings(n: int, tier: str, steps: int | None = None):
